@@ -228,6 +228,10 @@ func (p c16) Run(c *core.Ctx) {
 		p.otherTags(c)
 		return
 	}
+	if c.Index%20 == 6 {
+		p.early(c)
+		return
+	}
 	cfg := genC16Config(c)
 	b, _ := yaml.Marshal(cfg.tree)
 	doc := string(b)
@@ -612,5 +616,48 @@ func (p c16) otherTags(c *core.Ctx) {
 	c.Count("other_tag_cases_checked", 1)
 	if strings.Contains(text, "${") {
 		c.Nontrivial("othertags|" + text + "|" + want)
+	}
+}
+
+// early: components that are created before the refresh - a post-processor that is itself a component,
+// and what is wired into it - resolve their placeholders against the loaded configuration like
+// everybody else.
+func (p c16) early(c *core.Ctx) {
+	cfg := genC16Config(c)
+	b, _ := yaml.Marshal(cfg.tree)
+	text := genC16Text(c, 0)
+	want, _, _, status := modelResolve(text, cfg.tree)
+	if status != "ok" || strings.ContainsAny(text, ",") {
+		return
+	}
+	g := world.NewG(c.Rng)
+	dep := g.AddNode([]int{0, 1, 3}[c.Rng.Intn(3)], g.FreshName(0)) // the only IA: wired into the post-processor by type
+	late := g.AddNode(2, g.FreshName(1))                            // not an IA; created by the refresh
+	for _, k := range []int{dep, late} {
+		g.Sc.Nodes[k].Cfg = map[string]world.TagSpec{"CfgS": {Tag: "value", Val: text + ",required=false"}}
+	}
+	g.Sc.Config = string(b)
+	g.ShuffleOrders()
+	pp := world.NewPPDep(1+c.Rng.Intn(2), "early-pp", []int{100, 50, 9}[c.Rng.Intn(3)])
+	r := world.Start(g.Sc, world.Options{Extra: []any{pp}, NoTracer: true, BinderBudget: 20000})
+	c.Count("starts", 1)
+	detail := map[string]any{"tag_text": text, "config": string(b), "model_replacement": want, "outcome": core.Short(r.OutcomeDetail(), 300)}
+	if r.Outcome() != "ok" {
+		if abnormal(r.Outcome()) {
+			c.Fail("", fmt.Sprintf("tag text %q: %s", text, r.OutcomeDetail()), detail)
+		}
+		return
+	}
+	gotLate, gotEarly := r.Nodes[late].Slot().CfgS, r.Nodes[dep].Slot().CfgS
+	if gotLate != want {
+		return // sniffable replacement etc.: judged by the main family
+	}
+	if gotEarly != gotLate {
+		c.Fail("", fmt.Sprintf("tag text %q: a component created before the refresh (wired into a post-processor) was given %q, a component created by the refresh %q", text, gotEarly, gotLate), detail)
+		return
+	}
+	c.Count("early_component_cases_checked", 1)
+	if strings.Contains(text, "${") {
+		c.Nontrivial("early|" + text + "|" + want)
 	}
 }
